@@ -14,6 +14,8 @@ fn word_like(t: &Tok) -> bool { matches!(t.kind, TK::Keyword | TK::Name | TK::Id
 
 /// may the blank between two neighbouring tokens be dropped without the two running together?
 pub fn can_touch(a: &Tok, b: &Tok) -> bool {
+    // a number ends where its digits end: a keyword or name may follow it directly (`THEN 1ELSE 0END`, `4AND`)
+    if a.kind == TK::Number && matches!(b.kind, TK::Keyword | TK::Name | TK::Ident) && b.text.chars().next().map(|c| c.is_alphabetic() || c == '_').unwrap_or(false) { return true; }
     if word_like(a) && word_like(b) { return false; }
     if a.kind == TK::Str || b.kind == TK::Str { return a.kind == TK::Punct && a.text != "=>" || b.kind == TK::Punct && b.text != "=>"; }
     let opish = |t: &Tok| t.kind == TK::Op || t.text == "=>";
